@@ -172,7 +172,7 @@ def _check_path_function_unique(jobs, path_spec, path_function):
         If paths generated with given path function are not unique.
 
     """
-    job_paths = Counter(path_function(job) for job in jobs)
+    job_paths = Counter(os.path.normpath(path_function(job)) for job in jobs)
     duplicates = {path for path, count in job_paths.items() if count > 1}
     if len(duplicates) > 0:
         # Log paths generated more than once
@@ -308,9 +308,13 @@ def _check_directory_structure_validity(paths):
         If a path is repeated as both a leaf and a node in the directory structure.
 
     """
-    paths = list(paths)
+    # Compare normalized paths: 'a/b', 'a/./b' and 'a/b/' are the same directory.
+    paths = [os.path.normpath(path) for path in paths]
     check = set()
     for dst in paths:
+        if dst != os.curdir:
+            # Every path is located below the root of the structure.
+            check.add(os.curdir)
         tokens = dst.split(os.path.sep)
         for i in range(1, len(tokens)):
             check.add(os.path.sep.join(tokens[:i]))
